@@ -739,8 +739,6 @@ def oracle(case, out):
                 v("unexpected", f"unexpected observation {o[:80]}", i)
                 continue
             msgs = [m.split("/") for m in body.split()] if body else []
-            if not o.startswith("ret=ok"):
-                v("send-failed", "send_response returned an error on a healthy substream", i)
             got = []
             blocks_seen = False
             for enc, r in msgs:
@@ -764,6 +762,9 @@ def oracle(case, out):
                     v("empty-message", "message without blocks and presences", i)
             want = [s for s in sizes if s <= BATCH_LIMIT]
             got_fit = [s for s in got if s <= BATCH_LIMIT]
+            if not o.startswith("ret=ok"):
+                v("send-failed", f"send_response returned an error on a healthy substream after {len(msgs)} message(s); "
+                  f"{len(got_fit)} of the {len(want)} blocks that fit a message arrived", i)
             if got_fit != want:
                 k = next((k for k, (a, b) in enumerate(zip(got_fit, want)) if a != b), min(len(got_fit), len(want)))
                 v("blocks-not-sent-once", f"{len(want)} blocks fit a message, {len(got_fit)} arrived; first difference at "
